@@ -113,6 +113,15 @@ CASES = [
          formula="((Const(p_gas_rM['CO2']) + Const(p_ion_rM['H+']))*c1 + (Const(p_gas_rM['CO2']) + Const(p_ion_rM['Cl-']))*c2, "
                  "(Const(p_gas_rM['He']) + Const(p_ion_rM['H+']))*c1 + (Const(p_gas_rM['He']) + Const(p_ion_rM['Cl-']))*c2, "
                  "(Const(p_gas_rM['CO2']) + Const(p_ion_rM['H+']))*c1)"),
+    # array-valued concentrations (one entry per sample): element-wise the same sum, and the caller's arrays keep their values
+    dict(name="lg_solubility_ratio_arrays", targets=["chempy.properties.gas_sol_electrolytes_schumpe_1993.lg_solubility_ratio"],
+         setup="import numpy as np\nfrom chempy.properties.gas_sol_electrolytes_schumpe_1993 import lg_solubility_ratio as f, p_gas_rM, p_ion_rM",
+         vars={"c1": POS, "c2": POS, "c3": POS},
+         plain="(lambda A, B: (lambda r: (r[0], r[1], A[0], A[1], B[0], B[1]))(f({'Na+': A, 'Cl-': B}, 'O2')))"
+               "(np.array([c1, c2], dtype=object), np.array([c3, c1], dtype=object))",
+         formula="((Const(p_gas_rM['O2']) + Const(p_ion_rM['Na+']))*c1 + (Const(p_gas_rM['O2']) + Const(p_ion_rM['Cl-']))*c3, "
+                 "(Const(p_gas_rM['O2']) + Const(p_ion_rM['Na+']))*c2 + (Const(p_gas_rM['O2']) + Const(p_ion_rM['Cl-']))*c1, "
+                 "c1*1, c2*1, c3*1, c1*1)"),
     dict(name="Henry_H_at_T", targets=["chempy.henry.Henry_H_at_T"], setup="from chempy.henry import Henry_H_at_T as f",
          vars={"T": (200, 500), "H": POS, "Td": (None, None), "T0": (200, 500)}, plain="f(T, H, Td, T0, backend=be)",
          units="f(T*U.Kelvin, H*U.molar/U.atm, Td*U.Kelvin, T0*U.Kelvin, units=U, backend=be)", unit="U.molar/U.atm",
